@@ -112,7 +112,9 @@ theorem exec_loadActuals (K : PCtx) (wf : K.WF) : ∀ (es : List X.Expr) (fuel :
             rw [rep1.sp]; exact ofNat_add_W K.sp p
           have hsto : IAm.store K.env mem1 (mem1.read 1 + IAm.W (p : Int)) v = some (mem1.write (K.sp + p) v) := by
             rw [hadr]; exact store_ofNat _ _ _ _ hsl1 hsl2
-          have sB := Step.stai (env := K.env) (cfg (i + (K.low c).length + 1) v (mem1.read 1) mem1) io _ _ hst hsto
+          have hne1 : (mem1.read 1 + IAm.W (p : Int)).toNat ≠ 1 := by
+            rw [hadr]; exact ofNat_toNat_ne_one _ (by have := wf.sp_ge; omega) hsl1
+          have sB := Step.stai (env := K.env) (cfg (i + (K.low c).length + 1) v (mem1.read 1) mem1) io _ _ hst hsto hne1
           have frm2 : Frm K (K.S - 1 - p) (K.S - p) mem1 (mem1.write (K.sp + p) v) := by
             intro ad had
             rw [Mem.read_write_other]
